@@ -184,13 +184,45 @@ func (e *Engine) Discharge(obls []*Obligation, outDir string, timeout time.Durat
 			if o.Goal.IsTrue() && o.Expect != "sat" {
 				continue
 			}
-			sc := &smt.Script{Logic: "ALL", DefFuns: defFuns, Axioms: axioms}
+			sc := &smt.Script{Logic: "ALL", DefFuns: defFuns}
 			sc.Asserts = append(sc.Asserts, o.Hyps...)
+			// only axioms about symbols that occur in this obligation
+			used := map[string]bool{}
+			for _, h := range o.Hyps {
+				for k := range AxiomSymbols(h) {
+					used[k] = true
+				}
+			}
+			for k := range AxiomSymbols(o.Goal) {
+				used[k] = true
+			}
+			for _, ax := range axioms {
+				rel := false
+				for k := range AxiomSymbols(ax) {
+					if used[k] {
+						rel = true
+						break
+					}
+				}
+				if !rel {
+					continue
+				}
+				// The generator does the quantifier work where it can: an axiom whose pattern is f(x1..xn) over
+				// exactly its bound variables is replaced by its instances at the ground f-terms of the query.
+				if insts, ok := groundInstances(ax, append(append([]*smt.Term{}, o.Hyps...), o.Goal)); ok {
+					sc.Axioms = append(sc.Axioms, insts...)
+				} else {
+					sc.Axioms = append(sc.Axioms, ax)
+				}
+			}
 			if o.Expect == "sat" {
 				sc.Asserts = append(sc.Asserts, o.Goal)
 			} else {
 				sc.Asserts = append(sc.Asserts, smt.Not(o.Goal))
 			}
+			// generator-side instantiation of quantified hypotheses at the ground terms of the query (the
+			// quantified hypotheses are kept as well)
+			sc.Asserts = append(sc.Asserts, instantiateHyps(o.Hyps, o.Goal)...)
 			for _, mt := range sortedKeys(o.ModelTerms) {
 				sc.GetVals = append(sc.GetVals, o.ModelTerms[mt])
 			}
@@ -250,6 +282,20 @@ func (e *Engine) Discharge(obls []*Obligation, outDir string, timeout time.Durat
 		}(j)
 	}
 	wg.Wait()
+	// second chance, one query at a time with a longer limit: keeps a loaded machine from turning a provable
+	// obligation into a timeout
+	for _, j := range jobsList {
+		r := results[j]
+		if r.Status == "unsat" || r.Status == "sat" {
+			continue
+		}
+		r2, _ := Race(j.file, 3*timeout, DefaultSolvers, false)
+		r2.File = j.file
+		r2.Secs += r.Secs
+		if r2.Status == "unsat" || r2.Status == "sat" {
+			results[j] = r2
+		}
+	}
 	var out []*OblResult
 	for _, name := range order {
 		os := byName[name]
@@ -334,4 +380,230 @@ func sortedKeys(m map[string]*smt.Term) []string {
 	}
 	sort.Strings(ks)
 	return ks
+}
+
+// groundInstances instantiates a universally quantified axiom with a simple pattern at every matching ground
+// application occurring in the given terms.
+func groundInstances(ax *smt.Term, in []*smt.Term) ([]*smt.Term, bool) {
+	if ax.Op != "forall" || len(ax.Pats) != 1 || len(ax.Pats[0]) != 1 {
+		return nil, false
+	}
+	pat := ax.Pats[0][0]
+	if pat.Op != "app" || len(pat.Args) != len(ax.Quant) {
+		return nil, false
+	}
+	pos := map[*smt.Term]int{}
+	for i, a := range pat.Args {
+		found := false
+		for _, q := range ax.Quant {
+			if a == q {
+				found = true
+			}
+		}
+		if !found {
+			return nil, false
+		}
+		if _, dup := pos[a]; dup {
+			return nil, false
+		}
+		pos[a] = i
+	}
+	bound := map[*smt.Term]bool{}
+	var collectBound func(u *smt.Term)
+	seenB := map[int]bool{}
+	collectBound = func(u *smt.Term) {
+		if seenB[u.ID()] {
+			return
+		}
+		seenB[u.ID()] = true
+		for _, q := range u.Quant {
+			bound[q] = true
+		}
+		for _, a := range u.Args {
+			collectBound(a)
+		}
+	}
+	for _, t := range in {
+		collectBound(t)
+	}
+	var insts []*smt.Term
+	done := map[int]bool{}
+	seen := map[int]bool{}
+	var walk func(u *smt.Term)
+	walk = func(u *smt.Term) {
+		if seen[u.ID()] {
+			return
+		}
+		seen[u.ID()] = true
+		for _, a := range u.Args {
+			walk(a)
+		}
+		if u.Op == "app" && u.Name == pat.Name && len(u.Args) == len(pat.Args) && !done[u.ID()] && !mentions(u, bound) {
+			done[u.ID()] = true
+			m := map[*smt.Term]*smt.Term{}
+			for q, i := range pos {
+				m[q] = u.Args[i]
+			}
+			insts = append(insts, smt.Subst(ax.Args[0], m))
+		}
+	}
+	for _, t := range in {
+		walk(t)
+	}
+	// one more round for terms introduced by the instances themselves
+	n0 := len(insts)
+	for _, t := range insts[:n0] {
+		walk(t)
+	}
+	return insts, true
+}
+
+// instantiateHyps: for every top-level universally quantified conjunct of a hypothesis, find trigger terms
+// (select / seq.nth / uninterpreted applications whose arguments include every bound variable directly) and
+// instantiate the body at each matching ground term of the query. One round; sound (instances of hypotheses).
+func instantiateHyps(hyps []*smt.Term, goal *smt.Term) []*smt.Term {
+	var foralls []*smt.Term
+	var collect func(t *smt.Term)
+	collect = func(t *smt.Term) {
+		switch t.Op {
+		case "and":
+			for _, a := range t.Args {
+				collect(a)
+			}
+		case "forall":
+			foralls = append(foralls, t)
+		}
+	}
+	for _, h := range hyps {
+		collect(h)
+	}
+	if len(foralls) == 0 {
+		return nil
+	}
+	// ground terms of the query indexed by head
+	bound := map[*smt.Term]bool{}
+	ground := map[string][]*smt.Term{}
+	seen := map[int]bool{}
+	var walkB func(t *smt.Term)
+	walkB = func(t *smt.Term) {
+		if seen[t.ID()] {
+			return
+		}
+		seen[t.ID()] = true
+		for _, q := range t.Quant {
+			bound[q] = true
+		}
+		for _, a := range t.Args {
+			walkB(a)
+		}
+	}
+	all := append(append([]*smt.Term{}, hyps...), goal)
+	for _, t := range all {
+		walkB(t)
+	}
+	head := func(t *smt.Term) string {
+		switch t.Op {
+		case "app":
+			return "app:" + t.Name
+		case "select", "seq.nth":
+			return t.Op
+		}
+		return ""
+	}
+	seen = map[int]bool{}
+	var walkG func(t *smt.Term)
+	walkG = func(t *smt.Term) {
+		if seen[t.ID()] {
+			return
+		}
+		seen[t.ID()] = true
+		for _, a := range t.Args {
+			walkG(a)
+		}
+		if h := head(t); h != "" && !mentions(t, bound) {
+			ground[h] = append(ground[h], t)
+		}
+	}
+	for _, t := range all {
+		walkG(t)
+	}
+	var out []*smt.Term
+	added := map[int]bool{}
+	for _, fa := range foralls {
+		if len(fa.Quant) > 2 {
+			continue
+		}
+		qs := map[*smt.Term]bool{}
+		for _, q := range fa.Quant {
+			qs[q] = true
+		}
+		// triggers
+		var trigs []*smt.Term
+		tseen := map[int]bool{}
+		var walkT func(t *smt.Term)
+		walkT = func(t *smt.Term) {
+			if tseen[t.ID()] {
+				return
+			}
+			tseen[t.ID()] = true
+			if t.Op == "forall" || t.Op == "exists" {
+				return
+			}
+			for _, a := range t.Args {
+				walkT(a)
+			}
+			if head(t) == "" {
+				return
+			}
+			direct := map[*smt.Term]bool{}
+			okArgs := true
+			for _, a := range t.Args {
+				if qs[a] {
+					direct[a] = true
+				} else if mentions(a, qs) {
+					okArgs = false
+				}
+			}
+			if okArgs && len(direct) == len(qs) {
+				trigs = append(trigs, t)
+			}
+		}
+		walkT(fa.Args[0])
+		n := 0
+		for _, tr := range trigs {
+			for _, g := range ground[head(tr)] {
+				if len(g.Args) != len(tr.Args) {
+					continue
+				}
+				m := map[*smt.Term]*smt.Term{}
+				match := true
+				for i, a := range tr.Args {
+					if qs[a] {
+						if prev, ok := m[a]; ok && prev != g.Args[i] {
+							match = false
+						}
+						if a.Sort != g.Args[i].Sort {
+							match = false
+						}
+						m[a] = g.Args[i]
+					} else if a != g.Args[i] {
+						match = false
+					}
+				}
+				if !match {
+					continue
+				}
+				inst := smt.Subst(fa.Args[0], m)
+				if !added[inst.ID()] && !inst.IsTrue() {
+					added[inst.ID()] = true
+					out = append(out, inst)
+					n++
+				}
+				if n > 40 {
+					break
+				}
+			}
+		}
+	}
+	return out
 }
